@@ -115,6 +115,7 @@ impl<E: Pairing> MultilinearPC<E> {
         ck: &CommitterKey<E>,
         polynomial: &impl MultilinearExtension<E::ScalarField>,
     ) -> Commitment<E> {
+        assert_eq!(polynomial.num_vars(), ck.nv, "Invalid size of polynomial");
         let nv = polynomial.num_vars();
         let scalars: Vec<_> = polynomial
             .to_evaluations()
